@@ -274,6 +274,21 @@ def r6(ctx):
 
 
 # ------------------------------------------------------------------ controls
+@rule("C06.R7", "totality: every panic / assert / unsafe site reachable from parse_fen and BoardBuilder::build is discharged")
+def r7(ctx):
+    from rules import C07
+    P = ctx.P
+    roots = [f"<{MG}Board as core::str::traits::FromStr>::from_str", MG + "fen::parse_fen", MG + "BoardBuilder::build"]
+    for r in roots:
+        P.body(r)
+    sites, fns, probs = C07.discharge_subset(ctx, roots, "C06")
+    ctx.floor("functions reachable from the parser and the builder", len(fns), 15)
+    ctx.floor("obligation sites below parse_fen / build", len(sites), 25)
+    ctx.bulk("parser/builder obligation sites", len(sites), [])
+    for pr in probs:
+        ctx.ob("totality:" + pr.split(":")[0][:80], False, "the parser/builder can reach an unchecked operation that is no longer discharged: " + pr[:300])
+
+
 def _drop_validate(P):
     b = P.own("fns", MG + "BoardBuilder::build")
     for blk in b["blocks"]:
